@@ -261,10 +261,27 @@ def wide_cases(tier):
                     yield {"src": {"desc": desc}, "opts": {"wrap": wrap, "version": version}, "cycles": 3, "read_kw": {}}
 
 
+def index_grid(tier):
+    """First depths with more decimals than the index format keeps (and whose 5-decimal rounding changes after an
+    intermediate rounding: ...x5|49...) x index formats finer and coarser than the header's own %.5f x steps x rows."""
+    starts = ["100.1523549", "2500.3047549", "100.0000149", "1670.123456", "-12.3456789", "0.9999951", "986904.00000449"]
+    optsets = [{}, {"fmt": "%.6f"}, {"column_fmt": {"0": "%.6f"}}, {"fmt": "%.8e"}, {"column_fmt": {"0": "%.7f"}}, {"fmt": "%.4f"},
+               {"column_fmt": {"0": "%.2f"}, "wrap": True}, {"fmt": "%.10g", "version": 1.2}]
+    for s0 in starts:
+        for step in ("0.5", "0.1524", "-0.125"):
+            for rows in ((1, 2, 3) if tier == "quick" else (1, 2, 3, 5, 8)):
+                idx = [repr(float(s0) + i * float(step)) for i in range(rows)]
+                curves = [["DEPT", "M", "", "depth", idx], ["GR", "API", "", "gamma", [repr(10.5 + i) for i in range(rows)]]]
+                desc = dict(version=[], well=[], params=[], curves=curves, other="", strt_unit="M", null=["f", "-999.25"])
+                for o in optsets:
+                    yield {"src": {"desc": desc}, "opts": o, "cycles": 3, "read_kw": {}}
+
+
 def parts(tier):
     return [
         Enum("example-corpus", corpus_cases),
         Enum("wide-files-wrapped-and-not", wide_cases),
+        Enum("index-start x index-format grid", index_grid),
         Hyp("generated-lasfiles", desc_cases, quick=3000, thorough=50000),
         Hyp("generated-texts", spec_cases, quick=1500, thorough=20000),
     ]
